@@ -194,6 +194,30 @@ func genWorld(t *rapid.T, o WorldOpts) *Desc {
 		d.Semitone = rapid.SampledFrom([]int{0, 0, 0, 1, -1, 5}).Draw(t, "defSemitone")
 		d.Channel = rapid.SampledFrom([]int{1, 1, 1, 2, 10, 15, 16}).Draw(t, "defChannel")
 	}
+	if o.WideDefaults && rapid.IntRange(0, 11).Draw(t, "astronomic") == 0 {
+		// defaults are taken as the file states them, whatever integers those are: twelve times the octave may be past 64 bits
+		// (nothing is in range then), or octave and semitone may be huge and cancel (the pitch is what the statement says)
+		huge := rapid.SampledFrom([]int{1 << 62, -(1 << 62), 1 << 61, 768614336404564651, -768614336404564651, 1 << 40, -(1 << 33), 1 << 31,
+			700000000000000000, -700000000000000000, 9223372036854775807 - 1000000, -9223372036854775807 + 1000000}).Draw(t, "hugeOctave")
+		d.Octave = huge
+		switch rapid.IntRange(0, 3).Draw(t, "hugeSemitone") {
+		case 0:
+			d.Semitone = rapid.IntRange(-13, 13).Draw(t, "defSemitone")
+		case 1: // cancels the octaves exactly (where that is representable), give or take a few semitones
+			if huge < 768000000000000000 && huge > -768000000000000000 {
+				d.Semitone = -12*huge + rapid.IntRange(-30, 30).Draw(t, "defSemitone")
+			} else {
+				d.Semitone = 9223372036854775807 - 1000000 - rapid.IntRange(0, 200).Draw(t, "defSemitone")
+			}
+		case 2:
+			d.Semitone = 9223372036854775807 - 1000000 - rapid.IntRange(0, 200).Draw(t, "defSemitone")
+		default:
+			d.Semitone = -9223372036854775807 + 1000000 + rapid.IntRange(0, 200).Draw(t, "defSemitone")
+		}
+		if rapid.Bool().Draw(t, "hugeOnlySemitone") {
+			d.Octave = rapid.IntRange(-10, 10).Draw(t, "defOctave")
+		}
+	}
 	d.Velocity = rapid.SampledFrom([]int{64, 100, 1, 127}).Draw(t, "velocity")
 	if o.Velocity0 && rapid.IntRange(0, 4).Draw(t, "vel0") == 0 {
 		d.Velocity = 0
